@@ -120,6 +120,45 @@ var ruleModeGuard = &Rule{
 		for t := range targets {
 			add(t)
 		}
+		// helpers that only the tabled conversion functions reach inherit
+		// their exception (the conversion may be split into helpers)
+		inherited := map[*ssa.Function]string{}
+		{
+			direct := map[*ssa.Function]bool{}
+			var walk func(fn *ssa.Function, set map[*ssa.Function]bool, stopAtTabled bool)
+			walk = func(fn *ssa.Function, set map[*ssa.Function]bool, stopAtTabled bool) {
+				if set[fn] {
+					return
+				}
+				set[fn] = true
+				if _, tabled := modeGuardExceptions[fnName(fn)]; tabled && stopAtTabled {
+					return
+				}
+				for _, c := range p.allCalls(fn) {
+					sc := c.Call.StaticCallee()
+					if sc == nil || fnPkgPath(sc) != pkgExec || sc.Blocks == nil || !scope[sc] {
+						continue
+					}
+					walk(sc, set, stopAtTabled)
+				}
+			}
+			for t := range targets {
+				walk(t, direct, true)
+			}
+			for fn := range scope {
+				why, tabled := modeGuardExceptions[fnName(fn)]
+				if !tabled {
+					continue
+				}
+				below := map[*ssa.Function]bool{}
+				walk(fn, below, false)
+				for g := range below {
+					if _, isTabled := modeGuardExceptions[fnName(g)]; !isTabled && !direct[g] {
+						inherited[g] = why + " (helper reached only through " + fn.Name() + ")"
+					}
+				}
+			}
+		}
 		e := p.errors()
 		var srcs []*ErrSrc
 		for _, s := range e.srcs {
@@ -173,6 +212,10 @@ var ruleModeGuard = &Rule{
 		for _, s := range srcs {
 			key := fmt.Sprintf("%s: suppressible error #%d", fnName(s.Fn), ord.next(fnName(s.Fn)))
 			if why, ok := modeGuardExceptions[fnName(s.Fn)]; ok {
+				out.excepted(key, p.pos(s.Instr.Pos()), fnName(s.Fn), why)
+				continue
+			}
+			if why, ok := inherited[s.Fn]; ok {
 				out.excepted(key, p.pos(s.Instr.Pos()), fnName(s.Fn), why)
 				continue
 			}
